@@ -142,6 +142,7 @@ func diffCases(r *vf.Run, groupMode bool) []diffCase {
 	}
 	if !groupMode {
 		cases = append(cases, diffCase{id: "container-edges", rows: 131072})
+		cases = append(cases, diffCase{id: "rare-values", rows: r.Pick(80000, 150000)})
 	}
 	if !groupMode {
 		// the NOT universe when the row count is a multiple of the container size and the last rows carry no column
@@ -171,7 +172,7 @@ func diffCases(r *vf.Run, groupMode bool) []diffCase {
 		if c.id == "dense" {
 			c.opts = gen.DatasetOpts{Rows: c.rows, Crafted: "dense"}
 		}
-		if c.id == "container-edges" || c.id == "wide-rows" || c.id == "gb-product" {
+		if c.id == "container-edges" || c.id == "wide-rows" || c.id == "gb-product" || c.id == "rare-values" {
 			c.opts = gen.DatasetOpts{Rows: c.rows, Crafted: c.id}
 		}
 		if strings.HasPrefix(c.id, "concat") {
@@ -415,6 +416,11 @@ func runDiff(r *vf.Run, groupMode bool) {
 				r.Sample("query", map[string]any{"dataset": id, "rows": len(ds.Rows), "specs": specStrings(ds), "expr": q.e.String(), "group_by": fmt.Sprintf("%q", q.gb), "expected_count": want.Count, "expected_groups": len(want.Groups), "expected_error": want.Err})
 			}
 		}
+		// every value of every column once, as a leaf and under NOT (counts from one pass over the rows): a defect tied
+		// to particular values or row ids shows on exactly those
+		if sid := id + "/leaf-sweep"; id == "rare-values" && !groupMode && r.Want(sid) {
+			leafSweep(r, sid, ds, matrix)
+		}
 		// one query OBJECT reused for many values (a caller looping over the values of a column): every execution must
 		// answer the expression as it is at that moment
 		if rid := id + "/reused-object"; r.Want(rid) && len(ds.ColNames()) > 0 {
@@ -476,4 +482,51 @@ func reusedObjectLoop(r *vf.Run, rid string, rng *rand.Rand, ds *gen.Dataset, ma
 			}
 		}
 	}
+}
+
+// leafSweep asks every (column, value) pair of the dataset on every configuration.
+func leafSweep(r *vf.Run, sid string, ds *gen.Dataset, matrix []cfgIndex) {
+	counts := map[string]map[string]uint64{}
+	for _, row := range ds.Rows {
+		for c, v := range row {
+			if counts[c] == nil {
+				counts[c] = map[string]uint64{}
+			}
+			counts[c][v]++
+		}
+	}
+	total := uint64(len(ds.Rows))
+	for _, cfg := range matrix {
+		bad := 0
+		for c, vs := range counts {
+			i := 0
+			for v, n := range vs {
+				i++
+				leaf := &updog.Query{Expr: &updog.ExprEqual{Column: c, Value: v}}
+				res, err := cfg.idx.Execute(leaf)
+				r.Eval(1)
+				if err != nil || res.Count != n {
+					bad++
+					if bad <= 3 {
+						r.Violation(sid, "answer", map[string]any{"config": cfg.name, "expr": fmt.Sprintf("(%s = %q)", c, v), "want": n, "got": fmt.Sprint(res, err), "rows": len(ds.Rows),
+							"dataset": "every row id is the first row of a value that occurs on 1, 2 or 7 rows"})
+					}
+					continue
+				}
+				if i%4 == 0 {
+					neg := &updog.Query{Expr: &updog.ExprNot{Expr: &updog.ExprEqual{Column: c, Value: v}}}
+					res, err := cfg.idx.Execute(neg)
+					r.Eval(1)
+					if err != nil || res.Count != total-n {
+						bad++
+						if bad <= 3 {
+							r.Violation(sid, "answer", map[string]any{"config": cfg.name, "expr": fmt.Sprintf("(NOT (%s = %q))", c, v), "want": total - n, "got": fmt.Sprint(res, err), "rows": len(ds.Rows)})
+						}
+					}
+				}
+			}
+		}
+		r.Count("leaf_sweep_values", int64(len(counts["id"])+len(counts["pair"])+len(counts["seven"])))
+	}
+	r.Distinct(sid)
 }
